@@ -493,8 +493,8 @@ fn vault_reads(run: &Run) {
 }
 
 /// The vault read through the *real* client-side SwarmDriver: the holders' answers are kad events (one per distinct
-/// holder) handled by the real accumulation code, in every sequence of 3..=5 answers over {v1, v2, unsigned-9}, followed
-/// by the end of the query. What the read returns must be the highest authentic version among the answers delivered
+/// holder) handled by the real accumulation code, in every sequence of 3..=5 answers over {v1, v2, unsigned-9}, and six or seven answers — five
+/// without a quorum, then v3 from the sixth (and seventh) holder —, followed by the end of the query. What the read returns must be the highest authentic version among the answers delivered
 /// before it completed.
 fn vault_through_the_driver(run: &Run) {
     use crate::driver_rig::DriverRig;
@@ -502,10 +502,27 @@ fn vault_through_the_driver(run: &Run) {
     use std::num::NonZeroUsize;
     let vs = versions();
     let pick = |name: &str| vs.iter().find(|v| v.name == name).expect("version").clone();
-    let menu = [pick("v1"), pick("v2"), pick("unsigned-9 (old ciphertext)")];
+    let menu = [pick("v1"), pick("v2"), pick("unsigned-9 (old ciphertext)"), pick("v3")];
     let mut execs = 0u64;
+    let mut seqs: Vec<Vec<usize>> = vec![];
     for len in 3..=5usize {
-        enumerate_sequences(menu.len(), len, &mut |seq: &[usize]| {
+        enumerate_sequences(3, len, &mut |seq: &[usize]| seqs.push(seq.to_vec()));
+    }
+    // more holders answer than the close group has members (kad asks up to K_VALUE peers): every arrangement of five
+    // answers over {v1, v2, unsigned-9} in which no version reaches the quorum of three, then the newest authentic
+    // version from a sixth (and a seventh) holder
+    enumerate_sequences(3, 5, &mut |seq: &[usize]| {
+        if (0..3).all(|v| seq.iter().filter(|x| **x == v).count() <= 2) {
+            for tail in [vec![3usize], vec![3, 3]] {
+                let mut q = seq.to_vec();
+                q.extend(tail);
+                seqs.push(q);
+            }
+        }
+    });
+    {
+        for seq in &seqs {
+            let seq: &[usize] = seq;
             execs += 1;
             let mut rig = DriverRig::new_client(1);
             let client = autonomi::Client::verif_new(rig.network.clone(), ant_evm::EvmNetwork::ArbitrumOne);
@@ -547,7 +564,7 @@ fn vault_through_the_driver(run: &Run) {
                 run.sample(json!({"read": "fetch_and_decrypt_vault through the real SwarmDriver", "answers_in_arrival_order": names}));
             }
             judge_vault(run, &delivered, "through-the-driver", res);
-        });
+        }
     }
     run.count("schedules", execs);
     run.count("states", execs);
